@@ -32,6 +32,7 @@ func serveTunnel(stream tunnelStreamServer, tunnelMetadata metadata.MD, clientAc
 		streams:               map[int64]*tunnelServerStream{},
 		lastSeen:              -1,
 	}
+	verifServerStarted(svr)
 	return svr.serve(tunnelMetadata)
 }
 
@@ -531,6 +532,7 @@ func (st *tunnelServerStream) readMsgLocked() (data []byte, ok bool, err error) 
 		in, ok := st.receiver.dequeue()
 		if !ok {
 			var err error
+			verifYield("sread.deqfail", st.streamID)
 			if halfClosedErr := st.halfClosed.Load(); halfClosedErr != nil {
 				err = halfClosedErr.error
 			}
@@ -583,6 +585,7 @@ func (st *tunnelServerStream) serveStream(md interface{}, srv interface{}) {
 		// In case context closes asynchronously via timeout,
 		// we need to make sure receiver is closed promptly.
 		<-st.ctx.Done()
+		verifYield("swatch.ctxdone", st.streamID)
 		st.receiver.cancel()
 	}()
 
@@ -604,8 +607,11 @@ func (st *tunnelServerStream) serveStream(md interface{}, srv interface{}) {
 
 func (st *tunnelServerStream) finishStream(err error) {
 	st.cancel()
+	verifYield("sfin.cancelled", st.streamID)
 	st.svr.removeStream(st.streamID)
+	verifYield("sfin.removed", st.streamID)
 	st.halfClose(err)
+	verifYield("sfin.halfclosed", st.streamID)
 
 	st.writeMu.Lock()
 	defer st.writeMu.Unlock()
@@ -651,6 +657,7 @@ func (st *tunnelServerStream) finishStream(err error) {
 		st.headers = nil
 	}
 
+	verifYield("sfin.closing", st.streamID)
 	st.closed = true
 	st.trailers = nil
 }
@@ -663,6 +670,7 @@ func (st *tunnelServerStream) halfClose(err error) {
 		// already closed
 		return
 	}
+	verifYield("shalf.cas", st.streamID)
 	st.receiver.close()
 }
 
